@@ -281,8 +281,7 @@ func c13(c *Ctx) {
 			if rt, ok := in.(*ssa.Return); ok {
 				for _, el := range sliceLitElems(rt.Results[0]) {
 					if strings.HasSuffix(pathOf(el), ".Status.PodIP") {
-						cs := strings.Join(condStrings(rt.Block()), " && ")
-						okKey = strings.Contains(cs, "isIndexablePod") && strings.Contains(cs, "=true")
+						okKey = callKnown(factsAt(rt.Block()), func(cl *ssa.Call) bool { return staticCallee(cl) == iip }, true)
 					}
 				}
 			}
